@@ -172,10 +172,15 @@ Definition td_step (t : tables) (d : decl) : tables * option perr :=
   | DFuncPtr n => (with_tm t (td_set (tm t) n ("function_pointer:" ++ n)), None)
   | DIface n => (with_id t (add (idefs t) n), None)
   | DGlobal ty =>
-      match td_lookup (tm t) ty with
-      | Some _ => if String.eqb (resolved t ty) "" then (t, Some (EUnknownType ty)) else (t, None)
-      | None => (t, None)
-      end
+      (* StatementParser::parseTypedefTypeStatement dispatches on the tables in this order: struct -> parseVariableDeclaration
+         (parseType: typedef_map_ first), interface and enum -> their own branches WITHOUT resolving a typedef of the same
+         name, anything else (typedef, union, unknown) -> parseVariableDeclaration *)
+      if negb (mem (sdefs t) ty) && (mem (idefs t) ty || mem (edefs t) ty) then (t, None)
+      else
+        match td_lookup (tm t) ty with
+        | Some _ => if String.eqb (resolved t ty) "" then (t, Some (EUnknownType ty)) else (t, None)
+        | None => (t, None)
+        end
   end.
 
 (* parseProgram: declarations in order; the first error ends the parse (RecursiveParser::error throws) *)
